@@ -30,13 +30,40 @@ def toSigned (w : Nat) (n : Nat) : Int :=
 /-- Rust `as i64` on a 64-bit unsigned value -/
 def wrapI64 (i : Int) : Int := toSigned 8 (i % (2 ^ 64 : Nat)).toNat
 
-/-- `Die::discr_value` (unit/die.rs): `DW_AT_discr_value` of a `w`-byte constant form read with gimli's `sdata_value`,
-    i.e. SIGNED — the key under which `TypeParser` files a variant of a Rust enum -/
-def discrKey (w raw : Nat) : Int := toSigned w raw
+/-- width mask of `Die::int_const`: constants of an unsigned type narrower than 8 bytes are cut to the type's width -/
+def constMaskBits (size : Nat) : Nat := if 1 ≤ size ∧ size ≤ 7 then 8 * size else 64
 
-/-- `Die::const_value` (unit/die.rs) on a `DW_FORM_udata` constant: gimli's `sdata_value` of an unsigned value is
-    `i64::try_from(v).ok()`; an enumerator without key is dropped from the table of a C-like enum -/
-def constKey (raw : Nat) : Option Int := if raw < 2 ^ 63 then some (raw : Int) else none
+/-- `Die::int_const` (unit/die.rs) on a fixed-size data form (`DW_FORM_data1/2/4/8`, `w` bytes holding `raw`).
+    `unsigned = none`: the constant belongs to a signed type, gimli's `sdata_value` sign-extends the form;
+    `unsigned = some size`: it belongs to an unsigned type of `size` bytes: zero-extended, cut to the type's width and kept as the
+    `i64` with the same bits — exactly what `try_as_number` makes of the number read from memory -/
+def intConstData (unsigned : Option Nat) (w raw : Nat) : Int :=
+  match unsigned with
+  | none => toSigned w raw
+  | some size => wrapI64 ((raw % 2 ^ constMaskBits size : Nat) : Int)
+
+/-- `Die::int_const` on a `DW_FORM_udata` constant (`sdata_value` of an unsigned LEB value is `i64::try_from(v).ok()`) -/
+def intConstUdata (unsigned : Option Nat) (raw : Nat) : Option Int :=
+  match unsigned with
+  | none => if raw < 2 ^ 63 then some (raw : Int) else none
+  | some size => some (wrapI64 ((raw % 2 ^ constMaskBits size : Nat) : Int))
+
+/-- `Die::wide_int_const`: a constant of a 128-bit type is a block of (little-endian) bytes; it gets a key iff its value fits
+    the 64-bit key domain (`u64::try_from` / `i64::try_from`) -/
+def wideConst (unsigned : Bool) (bytes : Bytes) : Option Int :=
+  if bytes.isEmpty ∨ bytes.length > 16 then none else
+  if unsigned then
+    (if leNat bytes < 2 ^ 64 then some (wrapI64 (leNat bytes : Int)) else none)
+  else
+    let v := toSigned bytes.length (leNat bytes)
+    if -(2 ^ 63 : Int) ≤ v ∧ v < 2 ^ 63 then some v else none
+
+/-- `Die::discr_value` for the UNSIGNED `w`-byte tag of a Rust enum whose `DW_AT_discr_value` is a `w`-byte data form holding
+    `raw` — the key under which `TypeParser` files the variant -/
+def discrKey (w raw : Nat) : Int := intConstData (some w) w raw
+
+/-- `Die::const_value` for an enumerator of a C-like enum with an unsigned underlying type (`DW_FORM_udata`) -/
+def constKey (raw : Nat) : Option Int := intConstUdata (some 8) raw
 
 /-! ## the type graph (what `TypeParser` produced) -/
 
@@ -130,7 +157,10 @@ deriving Inhabited, Repr, BEq
 
 /-- `ScalarValue::try_as_number` -/
 def Scalar.asNumber : Scalar → Option Int
-  | .num k v => if k = .i128 ∨ k = .u128 then none else some (wrapI64 v)
+  | .num k v =>
+    if k = .i128 then (if -(2 ^ 63 : Int) ≤ v ∧ v < 2 ^ 63 then some v else none)      -- `i64::try_from(num).ok()`
+    else if k = .u128 then (if v < 2 ^ 64 then some (wrapI64 v) else none)              -- `u64::try_from(num).ok().map(as i64)`
+    else some (wrapI64 v)
   | _ => none
 
 inductive Val where
@@ -260,6 +290,14 @@ def assumeStruct (v : Val) (name : String) : Option Val :=
   bfsFind (fun (f, c) => match c with | .struct ty ns vs tp => if f.is name then some (.struct ty ns vs tp) else none | _ => none)
     bfsFuel [(Field.root, v)]
 
+/-- `assume_field_as_rust_enum(name)` and the field name of the variant it shows: `none` = no enum under that name,
+    `some none` = an enum that shows no variant -/
+def assumeRustEnumVariant (v : Val) (name : String) : Option (Option (Option String)) :=
+  bfsFind (fun (f, c) => match c with
+    | .renum _ n _ => if f.is name then some (some n) else none
+    | .renumNone _ => if f.is name then some none else none
+    | _ => none) bfsFuel [(Field.root, v)]
+
 /-! ## guards (constants mirrored from specialization/mod.rs; re-read from the source by tools/tables/valguards.py) -/
 
 def LEN_GUARD : Int := Gen.ValGuards.LEN_GUARD
@@ -274,16 +312,24 @@ def chunks (el : Nat) : Nat → Bytes → List Bytes
   | 0, _ => []
   | n + 1, bs => bs.take el :: chunks el n (bs.drop el)
 
-/-- physical slot indexes shown for a ring buffer: `parse_vec_dequeue_inner`'s `slice_ranges` -/
+/-- `parse_vec_dequeue_inner`'s `slice_ranges` for a ring of capacity `cap`: (first slot of the head part, length of the
+    head part, length of the part that wrapped to slot 0) -/
+def ringRanges (cap head len : Nat) : Nat × Nat × Nat :=
+  let ws := if cap = 0 then 0 else head % cap
+  let headLen := cap - ws
+  if headLen ≥ len then (ws, len, 0) else (ws, cap - ws, len - headLen)
+
+/-- physical slot indexes shown for a ring buffer: the two ranges chained -/
 def ringIdx (cap head len : Nat) : List Nat :=
   let ws := if cap = 0 then 0 else head % cap
   let headLen := cap - ws
   if headLen ≥ len then (List.range len).map (ws + ·)
   else (List.range (cap - ws)).map (ws + ·) ++ List.range (len - headLen)
 
-/-- the slots the decoder shows for a `VecDeque` whose header says `capRaw`, `head`, `lenRaw` (element size ≠ 0) -/
+/-- the slots the decoder shows for a `VecDeque` whose header says `capRaw`, `head`, `lenRaw` (element size ≠ 0): the ring
+    positions are computed with the REAL capacity, `guard_len` limits only how many elements are shown -/
 def dequeIdx (capRaw head lenRaw : Nat) : List Nat :=
-  ringIdx (guardCap capRaw).toNat head (guardLen lenRaw).toNat
+  ringIdx capRaw head (guardLen lenRaw).toNat
 
 /-- `match_empty_or_deleted().invert()` of one group: positions (< 16) whose control byte has the top bit clear,
     ascending — what `lowest_set_bit` / `remove_lowest_bit` enumerate -/
@@ -673,15 +719,20 @@ def specialize (c : Ctx) (rec : Rec) (k : SpecKind) (sv : Val) (id : Nat) (tps :
     if len0 < 0 then none else
     let len := (guardLen len0).toNat
     let el ← c.size inner
-    let cap ← if el = 0 then some (2 ^ 64 - 1) else (extractCapacity c.ver sv).map fun x => (guardCap x).toNat
+    -- the REAL capacity positions the ring; `guard_cap` only limits the capacity that is shown
+    let cap ← if el = 0 then some (2 ^ 64 - 1) else extractCapacity c.ver sv
     let head0 ← assumeScalarNumber sv "head"
     -- `… as usize`: a head ≥ 2^63 (zero-sized elements: the ring index wraps freely) comes back from i64 unchanged
     let head := (head0 % (2 ^ 64 : Nat)).toNat
-    let slots := ringIdx cap head len
+    let r := ringRanges cap head len
     let p ← assumePointer sv "pointer"
-    let buf ← c.rd p (cap * el)
-    let items ← parseSlots rec inner el p buf slots
-    some (.specVec true sv (vecStructure c sv.tyName inner items (if el = 0 then 0 else cap) tps))
+    -- only the shown slots are read: the head part at its slot, the wrapped part at slot 0 (checked address arithmetic)
+    if p + (r.1 + r.2.1) * el ≥ 2 ^ 64 ∨ p + r.2.2 * el ≥ 2 ^ 64 then none else
+    let d0 ← c.rd (p + r.1 * el) (r.2.1 * el)
+    let d1 ← c.rd p (r.2.2 * el)
+    let items0 ← parseSlots rec inner el (p + r.1 * el) d0 (List.range r.2.1)
+    let items1 ← parseSlots rec inner el p d1 (List.range r.2.2)
+    some (.specVec true sv (vecStructure c sv.tyName inner (items0 ++ items1) (if el = 0 then 0 else (guardCap cap).toNat) tps))
   | .hashmap | .hashset => do
     let ctrl ← assumePointer sv "pointer"
     let mask ← assumeScalarNumber sv "bucket_mask"
@@ -697,7 +748,9 @@ def specialize (c : Ctx) (rec : Rec) (k : SpecKind) (sv : Val) (id : Nat) (tps :
     let kvs ← parseBuckets c rec kv kvSize ctrl idx
     if k == .hashmap then some (.specMap false sv (kvs.map (·.1)) (kvs.map (·.2)))
     else some (.specSet false sv (kvs.map (·.1)))
-  | .btreemap => do
+  | .btreemap =>
+    -- a map that never held an element: `root` is the variant `None`
+    if assumeRustEnumVariant sv "root" == some (some (some "None")) then some (.specMap true sv [] []) else do
     let height ← assumeScalarNumber sv "height"
     let ptr ← assumePointer sv "pointer"
     let kt ← lookupTParam tps "K"
@@ -733,6 +786,17 @@ def specialize (c : Ctx) (rec : Rec) (k : SpecKind) (sv : Val) (id : Nat) (tps :
   | .tls => some (.specOther "tls" sv)
   | .uuid | .instant | .systime => some (.specOther "other" sv)
   | .plain => some sv
+
+/-- the variant `parse_rust_enum` shows for discriminant number `v`: the one keyed `v`, else the default one -/
+def selectVariant (enums : List (Option Int × Member)) (v : Int) : Option Member :=
+  match enums.find? (·.1 == some v) with
+  | some e => some e.2
+  | none => (enums.find? (·.1 == none)).map (·.2)
+
+/-- `parse_rust_enum`: an enum WITHOUT discriminant member that has a single variant shows that variant; otherwise the
+    variant is selected by the discriminant value read from memory (none read: nothing shown) -/
+def chooseVariant (discr : Option Member) (enums : List (Option Int × Member)) (dv : Option Int) : Option Member :=
+  if discr.isNone && enums.length == 1 then enums.head?.map (·.2) else dv.bind (selectVariant enums)
 
 /-- `parse_inner` (fuel = nesting depth of the type) -/
 def parseInner (c : Ctx) : Nat → Option Data → Nat → Option Val
@@ -779,10 +843,7 @@ def parseInner (c : Ctx) : Nat → Option Data → Nat → Option Val
         | some m => match parseMember c rec' m d with
           | some (_, .scalar _ (some s)) => s.asNumber
           | _ => none
-      let en : Option Member := dv.bind fun v =>
-        match enums.find? (·.1 == some v) with
-        | some e => some e.2
-        | none => (enums.find? (·.1 == none)).map (·.2)
+      let en : Option Member := chooseVariant discr enums dv
       some (match en.bind (parseMember c rec' · d) with
         | some (n, v) => .renum ty n v
         | none => .renumNone ty)
